@@ -18,14 +18,15 @@ TECHNIQUE = ("Coq proofs about the capacity-instrumented Gallina model of extrac
              "The model is tied to the real code by differential execution of a malformed stream under ASan/UBSan (risky "
              "cases in a forked child with a CPU/RSS watchdog); the model must predict the class of every case (result "
              "dump, exception class, overrun site, UB site).")
-LEVEL_TEXT = ("see coq/Props/Properties_C03.v: c03_decode_safe (every wf schema, every byte string < 2^32, Length/data pairs "
-              "included: Ok or a library exception -- no overrun, no uninitialised read, no Diverge, no Fuel), "
+LEVEL_TEXT = ("see coq/Props/Properties_C03.v: c03_decode_safe_partial (every wf schema, every byte string < 2^32 whose MsgType "
+              "is not the name of a pseudo row of the message table, Length/data pairs included: Ok or a library exception "
+              "-- no overrun, no uninitialised read, no Diverge, no Fuel), c03_pseudo_msgtype_refuted, c03_decode_safe, "
               "c03_decode_total, c03_extract_element_safe, c03_extract_fixed_width_safe, c03_encode_safe_partial, "
               "c03_fast_atoi_safe, c03_fast_atoi_agrees_with_orig; refutations c03_encode_overflow_refuted, "
               "c03_datetime_ticks_refuted; on the pre-repair definitions c03_val_overflow_orig_refuted, "
               "c03_header_overflow_orig_refuted, c03_group_hang_orig_refuted, c03_fixed_width_orig_refuted, "
               "c03_datetime_ub_orig_refuted, c03_chksum_align_orig_refuted, c03_fast_atoi_ub_orig_refuted")
-LEVEL_NOTE = ("Partial: output[] of encode(f8String&) and the 64-bit tick product of the "
+LEVEL_NOTE = ("Partial: output[] of encode(f8String&), the pseudo rows header/trailer of the message table and the 64-bit tick product of the "
               "date/time constructors still violate the property (known findings). Memory safety of the REAL code is not "
               "proved: it is observed under ASan/UBSan on the generated stream and tied to the model's capacity checks. "
               "Float parsers belong to C08; date/time texts in decoded messages are canonical or predicted UB (garbage "
@@ -57,6 +58,7 @@ RULE = ("valid messages generated from the dumped metadata (wire bytes built ind
         "with and without mandatory members (now Ok/Exc), a Length field followed by 2049+ digits; ENC with a string field of 0..9000 bytes around the output[] boundary; "
         "the text of Length fields (2^32-k, 2^32+k, 2^31+-k, characters below '0', signs, empty, remaining size) on the "
         "sanitized and on an unsanitized build (DECW: fast_atoi<int> wraps, as the model); "
+        "MsgType texts header / trailer (pseudo rows of the message table) and near misses; "
         "history dependence: SEQ cases prime the stack in the harness frame (a valid message of several types decoded first, "
         "or the stack filled with 0x00/'Z'/0x7f/0xff) and then decode inputs whose second header element fails -- the tie "
         "covers stale-stack behaviour, the exception text is compared and must be a piece of the input, a returned message must "
@@ -97,7 +99,7 @@ ENV = {"ASAN_OPTIONS": "detect_leaks=0:abort_on_error=0:halt_on_error=1:allocato
 def risky(case, rest):
     """Run the case in a forked child?  Exactly those expected to end abnormally (a miss only costs
     a restart of the harness: the culprit is then re-run isolated)."""
-    if case.origin != "gen" or case.cls.startswith("ub-date"):
+    if case.origin != "gen" or case.cls.startswith(("ub-date", "pseudo-msgtype")):
         return True
     w = rest.split(" ")
     try:
@@ -171,7 +173,10 @@ def run_impl(built, cases, tier):
         exp = False
         w = rest.split(" ")
         if w[0] in ("DEC", "DECW", "REENC") and len(w) == 3:
-            exp = False          # since /repo a0d41df no input is expected to hang
+            try:             # since /repo a0d41df only the pseudo-MsgType inputs may run away
+                exp = py_mtype(bytes.fromhex(w[2])) in PSEUDO
+            except ValueError:
+                exp = False
         if w[0] == "DECW":
             by.setdefault(s + "+plain", []).append((k, "DEC " + rest[5:], True, exp))
             continue
@@ -237,8 +242,28 @@ FRAME_CLASS = {"FIX8::MessageBase::extract_header": "OOB extract_header", "FIX8:
                "FIX8::Message::encode": "OOB encode"}
 
 
+PSEUDO = (b"header", b"trailer")
+
+
+def py_mtype(data):
+    """The MsgType text Message::factory looks up (what extract_header delivers), None if the header
+    is rejected before: 8..=<2048|9..=<32|35..=<32| with tags of < 32 digits."""
+    m = re.match(rb"(8\d{0,30})=([^\x01]{0,2047})\x01(9\d{0,30})=([^\x01]{0,31})\x01(35\d{0,29})=([^\x01]{0,31})(\x01?)", data)
+    if not m:
+        return None
+    return m.group(6).split(b"\0")[0]
+
+
 def postprocess(case, r):
     """Sanitizer summaries of h_c03 -> the model's vocabulary (function level)."""
+    w = case.line.split(" ")
+    if ("DEC" in w[:2] or "DECW" in w[:2] or "REENC" in w[:2] or "SEQ" in w[:2]) and (r.startswith("CRASH") or r == "HANG"):
+        try:
+            if py_mtype(bytes.fromhex(w[-1])) in PSEUDO:
+                # type confusion: the form of the abnormal end (heap over-read, runaway loop) varies
+                return "CRASH pseudo-msgtype"
+        except ValueError:
+            pass
     if r.startswith("CRASH asan stack-buffer-overflow WRITE"):
         m = re.search(r"frame=(\S+)", r)
         if m:
@@ -573,6 +598,24 @@ def gen_schema(rng, tier, meta, px, cs):
             elem = [e for e in elem if e.fnum != t.fnum] + [G.Fld(t.fnum, b"g" * sz)]
             body[:] = [x for x in body if x.fnum != f] + [G.Fld(f, b"1", [elem])]
             add(wire(meta, mt, hdr, body, trl), "long-group-value-%d" % sz)
+    # -- MsgType texts around the pseudo rows "header" / "trailer" of the generated message table
+    for mtxt in (b"header", b"trailer"):
+        for _ in range(k(2, 6)):
+            mt, hdr, body, trl, w = valid()
+            rest = w[w.index(b"\x0135=") + 1:-7]
+            body_after = rest[rest.index(SOH) + 1:]
+            how = rng.randrange(4)
+            data = finish(meta.begin, b"35=" + mtxt + SOH + body_after,
+                          length=b"5" if how == 1 else None, chksum=7 if how == 2 else None)
+            if how == 3:
+                data = finish(meta.begin, b"35=" + mtxt + SOH)
+            add(data, "pseudo-msgtype")
+    for mtxt in (b"Header", b"header1", b"trailer ", b"heade", b"HEADER", b"traile", b"trailers", b"header\0x", b"head\0er",
+                 b" header", b"", b"headertrailer", b"0header"):
+        mt, hdr, body, trl, w = valid()
+        rest = w[w.index(b"\x0135=") + 1:-7]
+        body_after = rest[rest.index(SOH) + 1:]
+        add(finish(meta.begin, b"35=" + mtxt + SOH + body_after), "msgtype-near-pseudo")
     # -- the three header tokens at their capacities
     for _ in range(k(1, 3)):
         mt, hdr, body, trl, w = valid()
@@ -1036,6 +1079,11 @@ def c_fw_tag(case, r, m):
     return data is not None and r == "OOB decode" and fw_violates(meta, data)
 
 
+def c_pseudo_msgtype(case, r, m):
+    meta, data = _dec_bytes(case)
+    return data is not None and r == "CRASH pseudo-msgtype" and py_mtype(data) in PSEUDO
+
+
 def c_chksum_align(case, r, m):
     meta, w = _parts(case)
     return r == "UB calc_chksum" and w[0] == "CHKSUM" and int(w[1]) % 4 != 0 and len(w[2]) // 2 >= 8
@@ -1043,7 +1091,7 @@ def c_chksum_align(case, r, m):
 
 CLASSIFIERS = {"value-ge-capacity": c_value_overflow, "header-token-ge-capacity": c_header_overflow,
                "encoded-size-gt-output": c_encode_overflow, "group-hang-shape": c_group_hang,
-               "fixed-width-tag-ge-2049": c_fw_tag, "fast-atoi-ub": c_atoi_ub, "datetime-parse-ub": c_datetime_ub, "datetime-tick-overflow": c_datetime_ub, "chksum-misaligned": c_chksum_align}
+               "fixed-width-tag-ge-2049": c_fw_tag, "msgtype-is-pseudo-entry": c_pseudo_msgtype, "fast-atoi-ub": c_atoi_ub, "datetime-parse-ub": c_datetime_ub, "datetime-tick-overflow": c_datetime_ub, "chksum-misaligned": c_chksum_align}
 
 
 def extra_search(rng, seeds, tier):
